@@ -105,7 +105,7 @@ theorem makeId_counter (w : World) (k : Nat → Step) :
 /-! Non-vacuity: at the wrap the allocator skips identifiers in use. With requests 65535 and 1 unfinished
     and the counter at 65534, the next identifier is 2. -/
 def wrapWorld : World :=
-  { nextId := 65534, addrs := [(0, { winPub := [(65535, 0)], winSub := [(1, 1)] })] }
+  { nextId := 65534, ents := [⟨0, .pub, 65535, 0⟩, ⟨0, .sub, 1, 1⟩] }
 example : scanId wrapWorld 65535 wrapWorld.nextId = 2 := by decide
 example : idInUse wrapWorld 65535 = true ∧ idInUse wrapWorld 1 = true ∧ idInUse wrapWorld 2 = false := by decide
 
